@@ -33,6 +33,9 @@ Q = 10000000
 # ---------------------------------------------------------------------------
 # implementation-side monitors (property oracles on the trace alone)
 # ---------------------------------------------------------------------------
+L_REST = 3900     # search mode: byte b of the fifo object (node locs end at 2300) = 3900 + b (bytes registered otherwise keep their locs)
+
+
 def parse_case(case):
     v = [int(x) for x in case.split()]
     npar = v[0]
@@ -101,6 +104,9 @@ def make_monitor(kind):
     def monitor(case, tr, raw):
         if tr is None:
             return "implementation produced no trace: %s" % (raw or "")[:80]
+        # search mode (RT_CATCHALL=1): accesses to bytes of the object(s) that have no location of their own are
+        # scheduling points, not events of the protocol judged here
+        tr = [e for e in tr if e[1] < L_REST or e[2] in (909, 919)]
         params, progs = parse_case(case)
         nthreads = len(progs)
         nq = params[1] if kind == "mpscr" else 1
@@ -524,11 +530,12 @@ def search(ctx, exes):
             cases = gen_cases(rng_ctx, "thorough", kind)[:40000]
         finally:
             rng_ctx.cleanup()
-        impl = core.run_sharded([exe], cases)
+        # RT_CATCHALL: every byte of the fifo object is a scheduling point (fields the model does not know included)
+        impl = core.run_sharded(["env", "RT_CATCHALL=1", exe], cases)
         for c, line in zip(cases, impl):
-            why = MONITORS[kind](c, core.parse_trace(line) if line else None, line)
+            why = core.safe_monitor(MONITORS[kind], c, core.parse_trace(line) if line else None, line)
             if why:
-                core.report_violation(ctx, kind, c, why, line)
+                core.report_violation(ctx, kind + "+catchall", c, why, line)
                 if len(ctx.violations) >= 3:
                     return
 
@@ -542,7 +549,9 @@ def corpus(ctx, kind):
 
 
 def replay(ctx, payload):
-    kind = payload.get("harness")
+    kind = str(payload.get("harness", ""))
+    catchall = kind.endswith("+catchall")
+    kind = kind[:-len("+catchall")] if catchall else kind
     c = payload.get("case")
     if kind not in HARNESS or not c:
         print("nothing to replay (no concrete case in this file)")
@@ -551,6 +560,11 @@ def replay(ctx, payload):
     if not exe:
         print("harness does not build")
         return 2
+    if catchall:
+        impl = core.run_sharded(["env", "RT_CATCHALL=1", exe], [c])[0]
+        why = core.safe_monitor(MONITORS[kind], c, core.parse_trace(impl) if impl is not None else None, impl)
+        print("harness: %s\ncase:  %s\nimpl (every byte of the object a scheduling point):  %s\nmonitor: %s" % (kind, c, impl, why or "ok"))
+        return 1 if why else 0
     impl = core.run_sharded([exe], [c])[0]
     mod = core.model_run(kind, [c])[0]
     why = MONITORS[kind](c, core.parse_trace(impl), impl)
